@@ -288,7 +288,7 @@ def run(ctx):
     tmp = tempfile.mkdtemp(prefix="verif-c11-")
     lines, rows, ran = [], [], []
     try:
-        for _ in range(ctx.n(2600, 45000)):
+        for _ in range(ctx.n(2300, 45000)):
             case = gen_case(rng)
             nomodel = case.get("nomodel", False)
             ops, row, fail, sig, stats, results = run_case(case, tmp)
